@@ -550,7 +550,10 @@ T solveZero(F f, T x0, const SolveParams& p = SolveParams())
 	{
 		T y1 = f(x1);
 		if (fabs(y1) < T(p.maxerr))
+		{
+			x2 = x1;
 			break;
+		}
 		x2 = x1 - y1 * (x1 - x0) / (y1 - y0);
 		x0 = x1;
 		y0 = y1;
